@@ -164,6 +164,13 @@ def observe (st : Store) (op : OpI) (w : World) : Obs × Store × World :=
     ({ st := st, op := op, seg1 := newPts w w1, ran := true, seg2 := newPts w1 w2, ires := ires, seg3 := newPts w2 w',
        res := res, fin := w'.api }, st', w')
 
+/-- the model after a whole history (its `trace` holds every crash point, newest first) -/
+def runAll : Store → World → List OpI → Store × World
+  | st, w, [] => (st, w)
+  | st, w, op :: ops =>
+    match stepI sh st op w with
+    | (st', w', _, _) => runAll st' w' ops
+
 /-- every (claims, API) pair of a whole history of the model -/
 def checkAll : Store → Ghost → World → List OpI → List (Ghost × Api)
   | _, _, _, [] => []
@@ -172,6 +179,28 @@ def checkAll : Store → Ghost → World → List OpI → List (Ghost × Api)
     | (o, st', w') =>
       let r := checkObs sh g o
       r.1 ++ checkAll st' r.2 w' ops
+
+/-! ## Which histories the store mutex allows -/
+
+/-- every method that writes to the API excludes a running flush (regenerated facts: `KG.Model.K8sStore.genLocks`) -/
+def GoodLocks (L : Locks) : Prop := L.flush = true ∧ L.delete = true ∧ L.deleteUpstream = true ∧ L.save = true
+
+def isLoad : Op → Bool
+  | .load => true
+  | _ => false
+
+/-- A call that can land inside a running flush of a store in mode `wt`: one that does not wait for the store
+    mutex. `Load` takes no lock but is not issued concurrently with anything: the limiter calls it once, right
+    after it has built the store (assumption; a `Load` inside a flush replaces pending cached conditions). -/
+def allowedIntr (L : Locks) (wt : Bool) (intr : Op) : Bool := mayRunInside L wt intr && ! isLoad intr
+
+/-- the histories the locks allow, from a store in mode `wt` (a `restart` sets the mode of the new store) -/
+def allowedHist (L : Locks) : Bool → List OpI → Bool
+  | _, [] => true
+  | _, .plain (.restart _ wt') :: r => allowedHist L wt' r
+  | wt, .plain _ :: r => allowedHist L wt r
+  | wt, .flushI _ _ i :: r => allowedIntr L wt i && allowedHist L wt r
+  | wt, .stopI _ _ i :: r => allowedIntr L wt i && allowedHist L wt r
 
 /-- "A server that gains a shard loads exactly the persisted conditions of that shard": what a fresh store for
     `shard` must hold after `Load()` answered nil on `api`. -/
